@@ -7,6 +7,30 @@ HERE = os.path.dirname(os.path.dirname(os.path.abspath(__file__)))
 CMD = "PYTHONPATH=/repo/src PYTHONHASHSEED=0 /venv/bin/python harness/check.py %s --tier %s"
 
 CHECKS = {
+    "C04": dict(
+        engine="E2-handler",
+        technique="Coq proof (state invariant over all hit histories: count, spacing, window, liveness; invariant of the N-thread interleaving semantics over all schedules; unlocked discipline refuted by witness) + in-Coq correspondence under a virtual clock and forced schedules",
+        text="8 Coq theorems over Limiter.v: for every hit history and every setting (text, number, absent, unparsable -> "
+             "defaults 1/1000) at most fire_count collections unless -1, consecutive collections >= fire_period ms apart "
+             "(boundary collects), none outside the window the action holds, permitted true hits do collect; for ANY number "
+             "of threads and ANY schedule of their steps (check; condition; atomic claim; collect) the same bounds hold in "
+             "every reachable state; the check-then-record discipline without the claim is refuted by a checked witness. "
+             "Tied to the code by hit histories through the real handler under a virtual clock and by 2-4 threads parked "
+             "inside condition/watch evaluation and released in generated orders, both compared inside Coq.",
+        note="Trusted: Coq kernel+VM; harness; hit times positive; numerals without blanks/underscores; atomicity of the code "
+             "between two parking points is by the GIL, exercised not proved. Known finding: window arguments never reach the action.",
+        design="5-C04"),
+    "C10": dict(
+        engine="E2-handler",
+        technique="Coq proof (gate characterisation, failing condition rejects for every error text, rejected hits keep the budget, three-scope name resolution, per-expression results) + in-Coq correspondence with real evaluate_expression / can_trigger / handler",
+        text="7 Coq theorems over Cond.v + Limiter.v: a hit collects only if limits allow and the condition's value passes "
+             "str2bool; a condition that fails to evaluate rejects whatever its message; a rejected hit leaves the stats "
+             "unchanged, so after any number of rejected hits a permitted true hit collects; names resolve in locals, then "
+             "the frame's module globals, then builtins, and nowhere else; each watch has its own result and a failing one "
+             "does not change the others. Tied to the code by name lookups over generated scopes (including names of the "
+             "agent's own modules), 21 values x 11 exception kinds through can_trigger, mixed histories through the handler.",
+        note="Trusted: Coq kernel+VM; harness; CPython's eval for the expression language itself; expressions side-effect free.",
+        design="5-C10"),
     "C02": dict(
         engine="E1-collector",
         technique="Coq proof (frame description laws, entry fidelity as a step invariant of the work-list collector, children by kind) + in-Coq correspondence with real TriggerHandler/FrameCollector/VariableSetProcessor on synthetic frames + live programs with an independent recorder",
@@ -109,6 +133,8 @@ def main():
         engines=[
             dict(name="E1-collector", path="coq/theories/Collector.v coq/theories/CollectorProofs.v coq/theories/Frames.v harness/lib/e1.py harness/lib/objgen.py harness/props/c02.py harness/props/c05.py harness/props/c06.py harness/props/c07.py",
                  serves_properties=["C02", "C05", "C06", "C07"], kind_free_text="Gallina work-list collector over abstract heaps; step invariants; in-Coq correspondence on generated object graphs"),
+            dict(name="E2-handler", path="coq/theories/Limiter.v coq/theories/LimiterProofs.v coq/theories/Cond.v harness/lib/e2.py harness/props/c04.py harness/props/c10.py",
+                 serves_properties=["C04", "C10"], kind_free_text="Gallina models of the rate limiter (sequential and interleaved), condition gate and scope; real TriggerHandler with recording plugins, virtual clock, synthetic frames, forced schedules"),
             dict(name="E4-stores", path="coq/theories/Attrs.v coq/theories/AttrsProofs.v coq/theories/Config.v harness/props/c18.py harness/props/c19.py",
                  serves_properties=["C18", "C19"], kind_free_text="Gallina models of the attribute store, resources, configuration resolution; proofs; in-Coq correspondence"),
         ],
